@@ -1,7 +1,7 @@
 #!/usr/bin/env python3
 """Regenerates MANIFEST.json from the table below (keeps it valid at all times)."""
 import json, sys
-READY = ["C01", "C02", "C03", "C04", "C05", "C06", "C07", "C08", "C09", "C10", "C11", "C12", "C13", "C14", "C15", "C17", "C18"]
+READY = ["C01", "C02", "C03", "C04", "C05", "C06", "C07", "C08", "C09", "C10", "C11", "C12", "C13", "C14", "C15", "C16", "C17", "C18"]
 EXPL = "Bounded, seeded, generated search with an explicit oracle; finite configuration sub-spaces are enumerated completely (flagged exhaustive in the evidence). A pass means the oracle held on every generated case, not a proof over all inputs."
 TEXTS = {
  "C01": ("differential decomposition oracle over all wrapper x inner pairs (proptest), probe leaves for delivery; bit-exact", "every ordered (wrapper, inner) pair of the catalogue is enumerated and driven with generated streams; chain output is compared bit-for-bit with stand-alone inner + stand-alone wrapper fed only when the inner has an output; Probe leaves check exactly-once in-order delivery."),
